@@ -81,6 +81,13 @@ def run(pid: str, tier: str, with_search: bool = False) -> int:
         k0, v0 = items[len(items) // 2]
         V.sample({"model_plan": {"cfg": v0[0]["cfg"], "f_over_fden": v0[0]["f"], "L": v0[0]["L"], "K": v0[0]["K"]}})
 
+    # 2a. liveness: every fair behaviour of the scheduler loop terminates (TLC temporal check on a smaller scope)
+    lc = dict(sched.model_constants(tier), EmitPlans=False, SNs=Raw("8..10"), Jdess=Raw("{0,1,2}"))
+    rl = tlc.run_model("Sched", f"{pid}_sched_live", constants=lc, properties=["Terminates"], spec="FairSpec", timeout=3600)
+    if rl.violated:
+        raise tlc.TLCError(f"Sched.tla: the scheduler loop does not terminate on some fair behaviour: {rl.violated}")
+    V.model(rl, "Sched.tla FairSpec => <>(pc = done)  (termination of the loop)")
+
     # 2b. new_ltf: whatever its three stages propose, the constraint section makes the structural clauses hold
     nlc = {"NNs": Raw("8..12" if tier == "quick" else "8..14"), "NOlaps": Raw("{<<0,1>>,<<1,2>>,<<3,4>>,<<31,32>>}"),
            "NBmins": Raw("{<<1,1>>,<<3,2>>,<<7,2>>}"), "NLminsOf(n)": Raw("{1,2,5,n-1,n}"), "FDen": sched.lcm_upto(12 if tier == "quick" else 14) * 2}
